@@ -136,8 +136,13 @@ def list_provenance(prog, f, listname, afs):
                             dests.add(it.attr)
                             found = True
                         else:
-                            problems.append((anc, "configuration list is not iterated in its own order: for %s in %s"
-                                             % (x.id, astq.text(it))))
+                            reorders = any(isinstance(y, ast.Call) and isinstance(y.func, ast.Name) and y.func.id in ("reversed", "sorted", "set", "frozenset")
+                                           for y in ast.walk(it)) or any(isinstance(y, ast.Slice) and y.step is not None for y in ast.walk(it))
+                            mentions_opt = any(isinstance(y, ast.Attribute) and astq.is_name(y.value, "options") for y in ast.walk(it))
+                            problems.append((anc, ("DEFINITE: " if (reorders and mentions_opt) else "") +
+                                             "configuration list is not iterated in its own order: for %s in %s" % (x.id, astq.text(it))))
+                            if mentions_opt:
+                                dests.update(y.attr for y in ast.walk(it) if isinstance(y, ast.Attribute) and astq.is_name(y.value, "options"))
                             found = True
                         break
                 if not found:
@@ -407,6 +412,14 @@ def seed_inputs_deterministic(ctx, R, tool, ds_cls):
     if not ms:
         raise AnalysisError("%s: torch.manual_seed not found in __getitem__" % R)
     read_attrs = {x.attr for c in ms for x in ast.walk(c) if astq.is_self_attr(x, g.params[0])}
+    # ... also through locals the seed expression is built from
+    names = {x.id for c in ms for x in ast.walk(c) if isinstance(x, ast.Name)}
+    for _ in range(3):
+        for n_ in g.body_nodes():
+            if isinstance(n_, ast.Assign) and any(isinstance(t, ast.Name) and t.id in names for tt in n_.targets for t in astq.flatten_targets(tt)):
+                read_attrs |= {x.attr for x in ast.walk(n_.value) if astq.is_self_attr(x, g.params[0])}
+                names |= {x.id for x in ast.walk(n_.value) if isinstance(x, ast.Name)}
+    read_attrs -= {"utt_path"}
     attr_param = {}
     for n in init.body_nodes():
         if isinstance(n, ast.Assign) and len(n.targets) == 1 and astq.is_self_attr(n.targets[0], init.params[0]):
